@@ -43,6 +43,12 @@ JOBS += [
 ]
 
 
+# exhaustive partition of nrbytes for the yescrypt-family encoders: with the
+# number of salt bytes fixed every write position is a constant
+NRB_CASES = [("lt16", "nrbytes < 16"), ("gt64", "nrbytes > 64")] + \
+            [("eq%d" % k, "nrbytes == %d" % k) for k in range(16, 65)]
+
+
 def _misc(name, fn, defs, src, extra=None, functions=None):
     j = {"name": "gensalt_%s" % name, "props": ["C10", "C11", "C12", "C13"],
          "functions": functions or [fn],
@@ -73,4 +79,19 @@ JOBS += [
           functions=["gensalt_sunmd5_rn", "write_itoa64_4"]),
     _misc("nt", "gensalt_nt_rn", ["M_nt=1", "OUT_OBJ=osz"], ["lib/crypt-nthash.c", "lib/util-xstrcpy.c"],
           functions=["gensalt_nt_rn", "strcpy_or_abort"]),
+    _misc("sha1crypt", "gensalt_sha1crypt_rn", ["M_sha1crypt=1", "OSZ_MAX=256"], ["lib/crypt-pbkdf1-sha1.c"],
+          functions=["gensalt_sha1crypt_rn", "to64"], extra={"unwind": 18}),
+    _misc("scrypt", "gensalt_scrypt_rn", ["M_scrypt=1", "OSZ_MAX=256", "XV_STRCPY_MAX=256", "STUB_STRCPY_OR_ABORT=1", "XV_STR_SCAN=193"], ["lib/crypt-scrypt.c", ],
+          functions=["gensalt_scrypt_rn", "encode64", "encode64_uint32", "N2log2", "strcpy_or_abort"],
+          extra={"unwind": 24, "unwind_by_func": {"^strlen$": 194, "^_crypt_strcpy_or_abort$": 258}, "cases": NRB_CASES, "timeout": 500, "mem_gb": 2, "bound": "output_size <= 256 (larger sizes differ only in strcpy_or_abort's zero fill, which has its own contract)"}),
+    _misc("yescrypt", "gensalt_yescrypt_rn", ["M_yescrypt=1", "OSZ_MAX=256", "XV_STRCPY_MAX=256", "STUB_STRCPY_OR_ABORT=1", "XV_STR_SCAN=193"],
+          ["lib/crypt-yescrypt.c", "lib/alg-yescrypt-common.c"],
+          functions=["gensalt_yescrypt_rn", "yescrypt_encode_params_r", "encode64", "encode64_uint32",
+                     "encode64_uint32_fixed", "N2log2", "strcpy_or_abort"],
+          extra={"unwind": 24, "unwind_by_func": {"^strlen$": 194, "^_crypt_strcpy_or_abort$": 258}, "cases": NRB_CASES, "timeout": 500, "mem_gb": 2, "bound": "output_size <= 256 (larger sizes differ only in strcpy_or_abort's zero fill, which has its own contract)"}),
+    _misc("gost_yescrypt", "gensalt_gost_yescrypt_rn", ["M_gost_yescrypt=1", "OSZ_MAX=256", "XV_STRCPY_MAX=256", "STUB_STRCPY_OR_ABORT=1", "XV_STR_SCAN=193"],
+          ["lib/crypt-gost-yescrypt.c", "lib/crypt-yescrypt.c", "lib/alg-yescrypt-common.c"],
+          functions=["gensalt_gost_yescrypt_rn", "gensalt_yescrypt_rn", "yescrypt_encode_params_r", "encode64",
+                     "encode64_uint32", "encode64_uint32_fixed", "N2log2", "strcpy_or_abort"],
+          extra={"unwind": 24, "unwind_by_func": {"^strlen$": 194, "^_crypt_strcpy_or_abort$": 258}, "cases": NRB_CASES, "timeout": 500, "mem_gb": 2, "bound": "output_size <= 256 (larger sizes differ only in strcpy_or_abort's zero fill, which has its own contract)"}),
 ]
